@@ -37,6 +37,7 @@ def check(ctx: Ctx):
     locate.check_cylindrical(ctx)
     locate.check_spherical(ctx)
     locate.check_label_connectivity(ctx)
+    locate.check_dedup_metric(ctx)
     for cname in ("SphericalDroplet", "DiffuseDroplet"):
         render.check_renderer(ctx, cname, rules=("DIST", "SHARP"))
     render.check_polar(ctx, rules=("METRIC",))
@@ -60,7 +61,7 @@ def check(ctx: Ctx):
     ctx.expect("PADSHIFT", 1)
     ctx.expect("DIST", 2)
     ctx.expect("SHARP", 2)
-    ctx.expect("METRIC", 3)
+    ctx.expect("METRIC", 4)
     ctx.expect("SUMCLIP", 3)
     ctx.expect("FORMULA", 24)
     ctx.trust("scipy.ndimage.center_of_mass returns array-index positions (cell i ↦ i); slice .start/.stop are cell-boundary coordinates",
